@@ -14,7 +14,7 @@ Definition witP (p : spc) (c : nat) : Prop :=
 
 Record InvC (s : st) : Prop := {
   C1 : forall c x, cns s c = Some x -> c_closed x = false -> c_subs x = [] ->
-       0 < c_timers x \/ 0 < c_tclose x \/ c_rl x = RLClose \/ exists i, witP (pc s i) c;
+       0 < c_timers x \/ c_rl x = RLClose \/ exists i, witP (pc s i) c;
   C2 : forall c x, cns s c = Some x -> c_rl x = RLExit -> c_closed x = true
 }.
 
@@ -43,7 +43,7 @@ Qed.
 Lemma removed_conn_cases : forall s x w,
   (removed_conn s x w = c_set_subs x (remove_w w (c_subs x)) /\ (remove_w w (c_subs x) <> [] \/ idle s = false))
   \/ (remove_w w (c_subs x) = [] /\ idle s = true
-      /\ removed_conn s x w = c_set_timers (c_set_subs x []) (S (c_timers x)) (c_tclose x)).
+      /\ removed_conn s x w = c_set_timers (c_set_subs x []) (S (c_timers x))).
 Proof.
   intros. unfold removed_conn. simpl. destruct (is_nil (remove_w w (c_subs x))) eqn:E.
   - apply is_nil_true in E. destruct (idle s) eqn:Ei.
@@ -56,6 +56,8 @@ Ltac expl :=
   repeat match goal with
          | Hs : shut ?s ?c ?z = (?s1, ?e) |- _ =>
            destruct (shut_cases _ _ _ _ _ Hs) as [(-> & -> & ?Hno)|(?x & ?Ex & ?Ecl & -> & ->)]; clear Hs
+         | Hs : close_if_empty ?s ?c = (?s1, ?e) |- _ =>
+           destruct (close_if_empty_cases _ _ _ _ Hs) as [(-> & -> & ?Hno)|(?x & ?Ex & ?Ecl & ?Esub & -> & -> & _)]; clear Hs
          | Hr : remove_sub ?s ?c ?w = Some (?s1, ?b) |- _ =>
            let x := fresh "x" in let Hb1 := fresh "Hb1" in let Hb2 := fresh "Hb2" in
            destruct (remove_sub_cases _ _ _ _ _ Hr) as (x & ?Ex & -> & Hb1 & Hb2); clear Hr;
@@ -66,9 +68,9 @@ Ltac use_c1_auto :=
   match goal with
   | Hc1 : (forall c x, cns ?s c = Some x -> _ -> _ -> _), H : cns ?s ?c = Some ?x, H0 : c_closed ?x = false, H1 : c_subs ?x = [] |- _ =>
     let i0 := fresh "i0" in let Hw := fresh "Hw" in
-    destruct (Hc1 _ _ H H0 H1) as [?|[?|[?|[i0 Hw]]]];
-    [auto | auto | auto |
-     try (right; right; right; exists i0; unfold upd;
+    destruct (Hc1 _ _ H H0 H1) as [?|[?|[i0 Hw]]];
+    [auto | auto |
+     try (right; right; exists i0; unfold upd;
           try match goal with |- context [Nat.eqb i0 ?j] => destruct (Nat.eqb_spec i0 j); subst end;
           try match goal with Hpc : pc _ _ = _ |- _ => rewrite Hpc in Hw end; simpl in *; try tauto; subst; split_or; repeat (match goal with E : exists _, _ |- _ => destruct E end); split_or; fwd_same; try congruence; try discriminate;
           try (match goal with E1 : c_subs ?x = [], E2 : In _ (c_subs ?x) |- _ => rewrite E1 in E2; destruct E2 end); auto; fail)]
@@ -85,8 +87,8 @@ Ltac auto_c :=
   try (match goal with E1 : c_subs ?x = [], E2 : In _ (c_subs ?x) |- _ => rewrite E1 in E2; destruct E2 end);
   try (repeat match goal with Hb : ?b = ?b -> _ |- _ => specialize (Hb eq_refl) end; split_or; congruence);
   try (split_or; repeat (match goal with E : exists _, _ |- _ => destruct E end); split_or; try discriminate; inj_all; simpl in *; fwd_same; congruence);
-  try solve [left; simpl; lia | right; left; simpl; lia | right; right; left; congruence
-            | right; right; right; match goal with |- exists i, witP (if i =? ?j then _ else _) _ => exists j; rewrite Nat.eqb_refl; simpl; auto end].
+  try solve [left; simpl; lia | right; left; congruence
+            | right; right; match goal with |- exists i, witP (if i =? ?j then _ else _) _ => exists j; rewrite Nat.eqb_refl; simpl; auto end].
 
 Lemma invc_step : forall s a s' e, Inv s -> InvD s -> InvC s -> step s a = Some (s', e) -> InvC s'.
 Proof.
@@ -131,6 +133,13 @@ Proof.
 Qed.
 
 (* ---- conns_drain ---- *)
+Lemma close_if_empty_cns : forall s c s' evs x, close_if_empty s c = (s', evs) -> cns s c = Some x ->
+  exists x', cns s' c = Some x'.
+Proof.
+  intros. destruct (close_if_empty_cases _ _ _ _ H) as [(-> & _)|(y & _ & _ & _ & -> & _)]; eauto.
+  simpl. rewrite upd_same. eauto.
+Qed.
+
 Theorem conns_drain_proof : forall idl s log, reach idl s log -> quiescent s ->
   forall c x, cns s c = Some x -> c_closed x = false ->
     c_dead x = None /\ c_subs x <> []
@@ -151,37 +160,32 @@ Proof.
       unfold remove_sub in E. rewrite Hc in E.
       destruct (is_nil (remove_w w (c_subs x))); [destruct (idle s)|]; simpl in E; rewrite upd_same in E; discriminate.
     + pose proof (Q (ARLClose c) eq_refl) as E. simpl in E. rewrite Hc, Er in E.
-      destruct (shut s c CIdle) as [s1 evs] eqn:Es.
-      destruct (shut_cases _ _ _ _ _ Es) as [(-> & _ & _)|(x0 & Ex & _ & -> & _)].
-      * rewrite Hc in E. discriminate.
-      * simpl in E. rewrite upd_same in E. discriminate.
+      destruct (close_if_empty s c) as [s1 evs] eqn:Es.
+      destruct (close_if_empty_cns _ _ _ _ _ Es Hc) as [x1 E1]. rewrite E1 in E. discriminate.
     + pose proof (C2 _ HC _ _ Hc Er). congruence.
   - (* an empty table on an open connection always has somebody about to use or close it *)
-    intro He. destruct (C1 _ HC _ _ Hc Hcl He) as [Ht|[Ht|[Ht|[i Hw]]]].
+    intro He. destruct (C1 _ HC _ _ Hc Hcl He) as [Ht|[Ht|[i Hw]]].
     + pose proof (Q (ATimerFire c) eq_refl) as E. simpl in E. rewrite Hc in E.
       destruct (c_timers x); [lia | discriminate].
-    + pose proof (Q (ATimerClose c) eq_refl) as E. simpl in E. rewrite Hc in E.
-      destruct (c_tclose x); [lia|]. destruct (shut _ c CIdle); discriminate.
     + pose proof (Q (ARLClose c) eq_refl) as E. simpl in E. rewrite Hc, Ht in E.
-      destruct (shut s c CIdle) as [s1 evs] eqn:Es.
-      destruct (shut_cases _ _ _ _ _ Es) as [(-> & _ & _)|(x0 & Ex & _ & -> & _)].
-      * rewrite Hc in E. discriminate.
-      * simpl in E. rewrite upd_same in E. discriminate.
+      destruct (close_if_empty s c) as [s1 evs] eqn:Es.
+      destruct (close_if_empty_cns _ _ _ _ _ Es Hc) as [x1 E1]. rewrite E1 in E. discriminate.
     + destruct (pc s i) eqn:Ep; simpl in Hw; try tauto; subst.
+      * destruct r; try tauto; subst.
+        pose proof (Q (ABook i) eq_refl) as E. simpl in E. rewrite Ep in E. discriminate.
       * destruct r; try tauto; subst.
         pose proof (Q (APublish i) eq_refl) as E. simpl in E. rewrite Ep in E.
         assert (dialP (pc s i) c) by (rewrite Ep; simpl; auto).
         destruct (D4 _ HD _ _ H) as (y & Hy & _). rewrite Hy in E. discriminate.
-      * destruct r; try tauto; subst.
-        pose proof (Q (ABook i) eq_refl) as E. simpl in E. rewrite Ep in E. discriminate.
       * pose proof (Q (AInsert i) eq_refl) as E. simpl in E. rewrite Ep, Hc, Hcl in E.
         destruct (lookup (next_w s) (c_subs x)); discriminate.
       * pose proof (Q (AClose i) eq_refl) as E. simpl in E. rewrite Ep in E.
-        destruct (shut s c CIdle); discriminate.
+        destruct (close_if_empty s c); discriminate.
   - (* every entry belongs to a subscription at rest *)
     intros w i Hin. pose proof (I1 _ HI _ _ _ _ Hc Hin) as Hh.
     destruct (pc s i) eqn:Ep; simpl in Hh; try tauto; destruct Hh; subst.
-    + pose proof (Q (ASend i) eq_refl) as E. simpl in E. rewrite Ep, Hc in E. destruct (c_dead x); discriminate.
+    + pose proof (Q (ASend i) eq_refl) as E. simpl in E. rewrite Ep, Hc in E.
+      destruct (ctxc s i); [discriminate|]. destruct (c_dead x); discriminate.
     + split; auto. destruct (ctxc s i) eqn:Ec; auto.
       pose proof (Q (AUnsub i) eq_refl) as E. simpl in E. rewrite Ep, Ec, Hc in E.
       destruct (lookup w (c_subs x)); discriminate.
